@@ -23,6 +23,12 @@ Theorem C03_canonical :
   forall (frames : list nat) (tbl : list stack_key), prefix_earlier tbl ->
     let '(h, tbl') := stack_of_frames tbl None frames in frames_of tbl' h = frames /\ prefix_earlier tbl'.
 Proof. exact canonical. Qed.
+(* ... and its frame column only holds frame indices the caller passed in (so, with C03_table_indices, indices of existing frame rows) *)
+Theorem C03_stack_frames_in_range :
+  forall (frames : list nat) (tbl : list stack_key) (p : option nat) (n : nat),
+    (forall k, In k tbl -> snd k < n) -> (forall f, In f frames -> f < n) ->
+    forall k, In k (snd (stack_of_frames tbl p frames)) -> snd k < n.
+Proof. exact stack_of_frames_frames_in. Qed.
 Theorem C03_prefix_earlier_empty : prefix_earlier [].
 Proof. intros i p f H. destruct i; discriminate. Qed.
 Theorem C03_stack_same_handle :
@@ -58,6 +64,7 @@ Proof. exact chk_thread_spec. Qed.
 Print Assumptions C03_intern.
 Print Assumptions C03_intern_no_duplicates.
 Print Assumptions C03_canonical.
+Print Assumptions C03_stack_frames_in_range.
 Print Assumptions C03_prefix_earlier_empty.
 Print Assumptions C03_stack_same_handle.
 Print Assumptions C03_finite_paths.
